@@ -218,7 +218,7 @@ LISTING_ISAS = {
 }
 
 
-def scoped_listing(rnd):
+def scoped_listing(rnd, validate=None):
     """A module of 2-4 code blocks (x86-64, AArch64, MIPS32), some with alignment requirements; 1-4 registrations: insert_at at an
     instruction boundary, SingleBlockScope / AllBlocksScope at ENTRY or EXIT.  The text section afterwards must be the listing edit
     -- ENTRY at offset 0, EXIT in front of the instruction that ends a block with a control transfer, several patches at one place in
@@ -299,6 +299,11 @@ def scoped_listing(rnd):
         ctx.apply()
     except Exception as e:    # noqa
         return f"{isa}: blocks {kinds}, {desc}: apply raises {type(e).__name__}: {str(e)[:100]}"
+    if validate is not None:
+        w = validate(ir, m)
+        if w:
+            return f"{isa}: blocks {kinds}, alignment {align}, registrations {desc}: {w}"
+        return None
     want = b""
     for k in range(nb):
         edited, cur = b"", 0
@@ -316,4 +321,180 @@ def scoped_listing(rnd):
     if got != want:
         return (f"{isa}: blocks {[(kd, len(o)) for kd, o in zip(kinds, original)]}, alignment {align}, registrations {desc}: the text section is "
                 f"{got.hex()}, the listing edit with nop padding is {want.hex()}")
+    return None
+
+
+# ------------------------------------------------------------------------------------ patches with symbolic operands on every target
+def patch_expressions(rnd):
+    """A patch of 1-3 instructions with symbolic operands (the per-target vocabulary of harness/asmmt.py: wrappers, addends, GOT / PLT
+    forms) inserted through a RewritingContext in front of a block: afterwards each operand's expression sits at its byte of the
+    text section, names the module's symbol, keeps addend and attributes (and, on x86, its size entry).  Returns a violation or None."""
+    import gtirb_rewriting
+    from gtirb_rewriting.assembly import X86Syntax
+    from harness import asmmt
+    target = rnd.choice(list(asmmt.TARGETS))
+    tg = asmmt.TARGETS[target]
+    pie = rnd.random() < 0.5
+    m, msyms = asmmt.make_module(target, pie)
+    refs = [v for v in asmmt.VOCAB[target] if v["kind"] == "ref" and "{t}" in v["line"]]
+    items = []
+    for _ in range(rnd.randint(1, 3)):
+        v = dict(rnd.choice(refs))
+        v["sym"] = rnd.choice(["ext", "extp", "dat"])
+        v["line"] = v["line"].replace("{t}", v["sym"])
+        items.append(v)
+    text = "\n".join(v["line"] for v in items)
+
+    @gtirb_rewriting.patch_constraints(x86_syntax=X86Syntax.INTEL if tg["intel"] else X86Syntax.ATT)
+    def patch(c):
+        return text
+    cb = msyms["ext"].referent
+    base = cb.address
+    ctx = gtirb_rewriting.RewritingContext(m, [])
+    ctx.insert_at(cb, 0, gtirb_rewriting.Patch.from_function(patch))
+    try:
+        ctx.apply()
+    except Exception as e:    # noqa
+        return f"{target}: inserting `{text}` raises {type(e).__name__}: {str(e)[:80]}"
+    exprs, sizes = {}, {}
+    for bi in m.byte_intervals:
+        for off, e in bi.symbolic_expressions.items():
+            exprs[bi.address + off] = e
+    tab = m.aux_data.get("symbolicExpressionSizes")
+    for o, z in (tab.data.items() if tab is not None else ()):
+        if isinstance(o.element_id, gtirb.ByteInterval) and o.element_id.address is not None:
+            sizes[o.element_id.address + o.displacement] = z
+    pos = base
+    want_at = set()
+    for v in items:
+        a = pos + v["opoff"]
+        want_at.add(a)
+        e = exprs.get(a)
+        if e is None:
+            return f"{target}: `{v['line']}` (in the patch `{text}`): no symbolic expression at {a:#x}; expressions at {sorted(hex(x) for x in exprs)}"
+        if not isinstance(e, gtirb.SymAddrConst) or e.symbol is not msyms[v["sym"]]:
+            return f"{target}: `{v['line']}`: the expression at {a:#x} does not name the module's symbol {v['sym']}"
+        if e.offset != v["addend"]:
+            return f"{target}: `{v['line']}`: addend {e.offset}, expected {v['addend']}"
+        if {x.name for x in e.attributes} != set(v["attrs"]):
+            return f"{target}: `{v['line']}`: attributes {sorted(x.name for x in e.attributes)}, expected {sorted(v['attrs'])}"
+        if v.get("opsize") is not None and sizes.get(a) != v["opsize"]:
+            return f"{target}: `{v['line']}`: symbolicExpressionSizes has {sizes.get(a)} at {a:#x}, expected {v['opsize']}"
+        pos += v["size"]
+    extra = [a for a in exprs if base <= a < pos and a not in want_at]
+    if extra:
+        return f"{target}: patch `{text}`: unexpected expressions at {[hex(a) for a in extra]}"
+    stray = [a for a in sizes if a not in exprs]
+    if stray:
+        return f"{target}: patch `{text}`: symbolicExpressionSizes entries at {[hex(a) for a in stray]} where no expression is"
+    return None
+
+
+# ------------------------------------------------------------------------------------ tables that name single blocks (PE, ELF dynamic)
+def block_tables(rnd):
+    """peSafeExceptionHandlers / elfDynamicInit / elfDynamicFini / the entry point name single code blocks.  Blocks are deleted (with
+    and without retarget_to_proxy): afterwards no table names a block that left the module, the mark of a deleted block has moved to
+    the code block that follows it (none with retarget_to_proxy or when data or nothing follows), and the module serializes.
+    Returns a violation text or None."""
+    import io
+
+    import gtirb_rewriting
+    from gtirb_rewriting import _auxdata
+    from gtirb_test_helpers import add_code_block, add_data_block, add_symbol, add_text_section, create_test_module
+    pe = rnd.random() < 0.5
+    ir, m = create_test_module(gtirb.Module.FileFormat.PE if pe else gtirb.Module.FileFormat.ELF,
+                               rnd.choice([gtirb.Module.ISA.IA32, gtirb.Module.ISA.X64]) if pe else gtirb.Module.ISA.X64)
+    _, bi = add_text_section(m, address=0x1000)
+    kinds = [rnd.choice("cccd") for _ in range(rnd.randint(3, 5))]
+    kinds[0] = "c"
+    blocks = [add_code_block(bi, b"\x90\xc3") if k == "c" else add_data_block(bi, b"\x01\x02") for k in kinds]
+    for k, b in enumerate(blocks):
+        add_symbol(m, f"b{k}", b)
+    code = [k for k, kd in enumerate(kinds) if kd == "c"]
+    marks = {}
+    if pe:
+        safe = {k for k in code if rnd.random() < 0.6}
+        _auxdata.pe_safe_exception_handlers.set(m, {blocks[k] for k in safe})
+        marks["seh"] = safe
+    else:
+        if rnd.random() < 0.7:
+            k = rnd.choice(code)
+            _auxdata.elf_dynamic_init.set(m, blocks[k])
+            marks["init"] = k
+        if rnd.random() < 0.7:
+            k = rnd.choice(code)
+            _auxdata.elf_dynamic_fini.set(m, blocks[k])
+            marks["fini"] = k
+    if rnd.random() < 0.5:
+        marks["entry"] = rnd.choice(code)
+        m.entry_point = blocks[marks["entry"]]
+    victims = {k: rnd.random() < 0.4 for k in rnd.sample(code, rnd.randint(1, min(2, len(code))))}
+    # consecutive victims make the hand-over chain: keep the expectation simple
+    if any(k + 1 in victims for k in victims):
+        return None
+    # not judged: deleting the DT_INIT / DT_FINI block in front of data (or of nothing) without retarget_to_proxy -- the library asserts that
+    # a code block follows (observation in DESIGN.md)
+    for name in ("init", "fini"):
+        k = marks.get(name)
+        if k in victims and not victims[k] and (k + 1 >= len(blocks) or kinds[k + 1] != "c"):
+            return None
+    ctx = gtirb_rewriting.RewritingContext(m, [])
+    for k, to_proxy in victims.items():
+        ctx.delete_at(blocks[k], 0, blocks[k].size, retarget_to_proxy=to_proxy)
+    try:
+        ctx.apply()
+    except Exception as e:    # noqa
+        return f"{'PE' if pe else 'ELF'} blocks {kinds}, marks {marks}, deleting {victims}: apply raises {type(e).__name__}"
+    live = {id(b) for b in m.byte_blocks}
+    gone = {k for k in victims if id(blocks[k]) not in live or blocks[k].size == 0}
+
+    def heir(k):
+        """the block a mark of deleted block k goes to: the next block when it is code and the deletion was not to a proxy"""
+        if victims[k] or k + 1 >= len(blocks) or kinds[k + 1] != "c":
+            return None
+        return k + 1
+    desc = f"{'PE' if pe else 'ELF'} blocks {kinds}, marks {marks}, deleting {victims}"
+    if pe:
+        tab = _auxdata.pe_safe_exception_handlers.get(m) or set()
+        for b in tab:
+            if id(b) not in live:
+                return f"{desc}: peSafeExceptionHandlers names a block that is no longer in the module"
+        want = set()
+        for k in marks["seh"]:
+            if k in victims and id(blocks[k]) not in live:
+                if heir(k) is not None:
+                    want.add(heir(k))
+            else:
+                want.add(k)
+        got = {k for k, b in enumerate(blocks) if any(b is x for x in tab)}
+        if got != want:
+            return f"{desc}: peSafeExceptionHandlers marks blocks {sorted(got)}, expected {sorted(want)}"
+    for name, acc in (("init", _auxdata.elf_dynamic_init), ("fini", _auxdata.elf_dynamic_fini)):
+        if name in marks:
+            k = marks[name]
+            cur = acc.get(m)
+            if cur is not None and id(cur) not in live:
+                return f"{desc}: {acc.name if hasattr(acc, 'name') else name} names a block that is no longer in the module"
+            if k in victims and id(blocks[k]) not in live:
+                w = heir(k)
+                if (cur is None) != (w is None) or (w is not None and cur is not blocks[w]):
+                    return f"{desc}: elfDynamic{name.capitalize()} is {'block %d' % blocks.index(cur) if cur in blocks else cur}, expected {'block %d' % w if w is not None else 'no entry'}"
+            elif cur is not blocks[k]:
+                return f"{desc}: elfDynamic{name.capitalize()} moved although its block was not deleted"
+    if "entry" in marks:
+        k = marks["entry"]
+        cur = m.entry_point
+        if cur is not None and id(cur) not in live:
+            return f"{desc}: the entry point is a block that is no longer in the module"
+        if k in victims and id(blocks[k]) not in live:
+            w = heir(k)
+            if (cur is None) != (w is None) or (w is not None and cur is not blocks[w]):
+                return f"{desc}: the entry point is not the expected block"
+    try:
+        buf = io.BytesIO()
+        ir.save_protobuf_file(buf)
+        buf.seek(0)
+        gtirb.IR.load_protobuf_file(buf)
+    except Exception as e:    # noqa
+        return f"{desc}: the module does not survive a protobuf round trip ({type(e).__name__}: {str(e)[:80]})"
     return None
